@@ -39,6 +39,17 @@ Quick tier: `shared-headers` (header objects shared, page geometry different) wi
 call boundary (exhaustive), the other role, `shared-most` (every component object shared but the page and one
 coloured component) and `shared-page` (the page object shared) at evenly spaced boundaries in both roles; thorough:
 every boundary in both roles for all of them, and three documents.
+OPTION sides and affected texts: every set's texts carry snippets the per-component switches act on (`AFFECTED`: LaTeX
+commands with a Unicode mapping, the RTF_CHAR_MAPPING characters, non-ASCII) and text_convert is switched off for some
+components of some documents; `pair-options` (`gen_option_set`) is the pair whose documents sit on different sides of
+EVERY per-component switch (text_convert of every component, as_table, text_hyphenation, pageby_header, new_page,
+as_colheader, use_color).
+PROCESS-WIDE CELLS nobody listed (`sched.StateProbe` / `state_windows`): every instance of a package class that is
+alive while no document exists (module-level singletons, objects kept by functools.cache / lru_cache, class-level
+objects), every module global and class attribute of the package is fingerprinted at every library call boundary of each
+document's solo encode; the boundaries at which such a cell differs from its idle value (inside a set … restore window:
+a flag switched off around one call in a try/finally) or next to a write that stays are park points: family
+`state-window` parks every document of every set there while the other document(s) are encoded from start to finish.
 Cell classes: every `contextvars.ContextVar` of the package is classified on every run (fresh interpreter): a mutable
 default object that an encode on another thread changes in place is a process-wide cell (`CtxMode.Global`), not the
 per-thread cell the theorems are about.  Likewise every shared input object: if encodes of different documents leave
@@ -70,6 +81,12 @@ RULE = ("schedules of 2 or 3 real threads encoding documents with different pale
         "col_rel_width, body, page, title, footnote, source, page header / footer — kept by reference by RTFDocument) "
         "while differing in page geometry, palette, displayed columns, data and page count (≥ 2 pages each, column "
         "headers repeated, document 0 ≥ 3 pages; solo baseline built with the same sharing in a fresh process); "
+        "every set's texts carry LaTeX commands with a Unicode mapping / RTF_CHAR_MAPPING characters / non-ASCII and "
+        "some components have text_convert off; pair-options: two documents on different sides of every per-component "
+        "switch (text_convert per component, as_table, text_hyphenation, pageby_header, new_page, as_colheader, "
+        "use_color); every document of every set is also parked at each library call boundary at which an attribute of "
+        "a process-wide object of the package (module-level / cached / class-level instance, module global, class "
+        "attribute — found by a heap scan, no name list) differs from its idle value or next to a write that stays; "
         "three-document sets also under 'one thread held inside / next to one of its shared accesses (every call "
         "boundary of the access's dynamic extent) or anywhere, while both other documents are encoded, in both "
         "orders, after the history: the others encoded alone'; "
@@ -126,7 +143,14 @@ MANIFEST = dict(
          "dynamic extent of each of its shared accesses while BOTH other documents are encoded (both orders), after "
          "the others were encoded alone' — the schedules a bounded, content-keyed cache on a process-wide service "
          "needs (Model.InterleaveLru, Props/C15lru: atomic lookups always hit, two threads are safe under all 64 "
-         "interleavings, three threads with three palettes fail under one preemption).",
+         "interleavings, three threads with three palettes fail under one preemption). A service-wide flag that is "
+         "switched off around one call and restored in a finally (set … restore window on an attribute of a cached / "
+         "module-level object) is the Global cell too: exact sequentially (C15_flag_window_sequential), broken by one "
+         "preemption inside the window and only there, one-sidedly (C15_flag_window_interferes), exact under every "
+         "schedule when the flag is per call / per thread (C15_private_flag_exact); the harness finds such windows "
+         "by fingerprinting every process-wide object of the package at every library call boundary of a solo encode "
+         "and parks each document inside each of them (family state-window), with documents that sit on different "
+         "sides of every per-component switch and texts the switches act on (mapped LaTeX commands, non-ASCII).",
     note="PARTIAL with respect to the runtime: switch points are library call boundaries (≈2 300 per small "
          "encode); preemption inside one bytecode-level shared access, free-threaded CPython and races inside C "
          "extensions (polars, Pillow) are outside the model and the scheduler. The strategy registry is a shared "
@@ -305,7 +329,126 @@ def gen_doc(rng, kind, pal, tag):
 def gen_docset(seed, k, kinds):
     rng = sub_rng(seed, "c15docs", k)
     pals = gen_palettes(rng, len(kinds), color_names())
-    return [gen_doc(rng, kind, pal, "ABC"[i]) for i, (kind, pal) in enumerate(zip(kinds, pals))]
+    specs = [gen_doc(rng, kind, pal, "ABC"[i]) for i, (kind, pal) in enumerate(zip(kinds, pals))]
+    if not any(kd in ("fontmix", "font14") for kd in kinds):      # (their texts are made for their widths)
+        affect_docset(specs, sub_rng(seed, "c15affect", k))
+    return specs
+
+
+# ------------------------------------------------------------------ texts that the per-component options act on
+#
+# A per-component switch (text_convert, text_hyphenation, as_table, pageby_header, as_colheader, new_page …) selects a
+# code path; whatever the two paths share between threads shows only if (a) the documents in flight sit on DIFFERENT
+# sides of the switch and (b) the texts are ones the switch changes: LaTeX commands with a Unicode mapping (\alpha,
+# \mu, \pm: text_convert), the characters of RTF_CHAR_MAPPING (^ _ >= <=: text_convert), non-ASCII characters (the
+# \uN escapes).  AFFECTED texts are appended to the texts of every document set; `gen_option_set` builds the pair that
+# differs in every switch.
+
+AFFECTED = ["\\alpha", "\\mu", "\\pm", "\\beta", "\\geq", "\\leq", "\\sigma", "\\gamma", "\\infty", "\\alpha\\beta",
+            "µ", "é", "≥", "x_1", "a^2", ">=", "<=", "\\pm µ", "\\unmapped"]
+LATEX = [a for a in AFFECTED if a.startswith("\\") and a != "\\unmapped"]
+
+OPTION_SWITCHES = ("body.text_convert", "headers.text_convert", "title.text_convert", "footnote.text_convert",
+                   "source.text_convert", "page_header.text_convert", "page_footer.text_convert",
+                   "subline.text_convert", "footnote.as_table", "source.as_table", "body.text_hyphenation",
+                   "headers.text_hyphenation", "title.text_hyphenation", "body.pageby_header", "body.new_page",
+                   "body.as_colheader", "page.use_color")
+
+
+def affect_docset(specs, rng, p_text=0.6, p_off=0.35):
+    """append AFFECTED snippets to the texts of the documents (component texts, header cells, data cells of the
+    non-grouping columns) and switch text_convert off for some components — in place; draws from `rng` only"""
+    for spec in specs:
+        if spec.get("kind") == "figure":
+            comps = ("title", "footnote", "source", "page_header")
+        else:
+            comps = ("title", "footnote", "source", "page_header", "body", "headers")
+        has_latex = False
+        for c in comps:
+            v = spec.get(c)
+            if v is None:
+                continue
+            if c == "body":
+                dfs = spec["df"] if isinstance(spec["df"], list) else [spec["df"]]
+                bodies = v if isinstance(v, list) else [v]
+                for df, b in zip(dfs, bodies):
+                    keys = set((b.get("page_by") or []) + (b.get("subline_by") or []) + (b.get("group_by") or []))
+                    for row in df["rows"]:
+                        for j, name in enumerate(df["cols"]):
+                            if name not in keys and rng.random() < p_text:
+                                a = rng.choice(AFFECTED)
+                                has_latex |= a in LATEX
+                                row[j] = f"{row[j]} {a}"
+                    if rng.random() < p_off:
+                        nc = len(df["cols"])
+                        b["text_convert"] = (False if rng.random() < 0.5 else
+                                             [[rng.random() < 0.5 for _ in range(nc)]])
+            elif c == "headers":
+                secs = v if v and isinstance(v[0], list) else [v]
+                for sec in secs:
+                    for h in sec:
+                        if h is None or not isinstance(h.get("text"), list):
+                            continue
+                        h["text"] = [f"{t} {rng.choice(AFFECTED)}" if rng.random() < p_text else t for t in h["text"]]
+                        if rng.random() < p_off:
+                            h["text_convert"] = False
+            else:
+                if isinstance(v.get("text"), str) and rng.random() < p_text:
+                    a = rng.choice(AFFECTED)
+                    has_latex |= a in LATEX
+                    v["text"] = f"{v['text']} {a}"
+                if rng.random() < p_off:
+                    v["text_convert"] = not (c in ("title", "footnote", "source"))   # the side that is not the default
+        if not has_latex:                             # every document has a text that conversion changes
+            for c in ("title", "footnote", "source", "page_header"):
+                if spec.get(c) is not None and isinstance(spec[c].get("text"), str) and \
+                        spec[c].get("text_convert", True) is True:
+                    spec[c]["text"] += " " + rng.choice(LATEX)
+                    break
+    return specs
+
+
+def gen_option_set(seed, k, n=2):
+    """n tiny single-table documents (page_by on a two-valued column, 2 data columns, 2–3 rows) that differ in EVERY
+    per-component switch (OPTION_SWITCHES): document 0 gets a drawn side of each switch, document 1 the other side (a
+    third document a fresh draw); every text carries AFFECTED snippets, the same ones in every document; palettes as
+    in the other sets"""
+    rng = sub_rng(seed, "c15opts", k)
+    pals = gen_palettes(rng, n, color_names())
+    side0 = {sw: rng.random() < 0.5 for sw in OPTION_SWITCHES}
+    nr = rng.randint(2, 3)
+    snip = lambda: rng.choice(LATEX) if rng.random() < 0.6 else rng.choice(AFFECTED)   # noqa: E731
+    cells = [[f"v{r}_{j} {snip()}" for j in range(2)] for r in range(nr)]
+    texts = dict(title=f"Title {snip()} {rng.choice(LATEX)}", footnote=f"note {{^a}} x_1 {snip()}",
+                 source=f"src {snip()}", page_header=f"hdr {snip()}", page_footer=f"ftr {snip()}",
+                 subline=f"sub {snip()}")
+    htext = [f"H{j} {snip()}" for j in range(2)]
+    present = [c for c, pr in (("title", 1.0), ("footnote", 1.0), ("source", 0.6), ("page_header", 0.4),
+                               ("page_footer", 0.4), ("subline", 0.3)) if rng.random() < pr]
+    specs = []
+    for i, pal in enumerate(pals):
+        tag = "ABC"[i]
+        on = {sw: (side0[sw] if i == 0 else (not side0[sw]) if i == 1 else rng.random() < 0.5)
+              for sw in OPTION_SWITCHES}
+        x, own = pal["common"], pal["own"]
+        rows = [["G0" if r < (nr + 1) // 2 else f"{tag}G1"] + list(cells[r]) for r in range(nr)]
+        spec = dict(kind="table", df=dict(cols=["grp", "c0", "c1"], rows=rows))
+        spec["body"] = dict(page_by=["grp"], new_page=on["body.new_page"], pageby_header=on["body.pageby_header"],
+                            as_colheader=on["body.as_colheader"], text_convert=on["body.text_convert"],
+                            text_hyphenation=on["body.text_hyphenation"], text_color=[x, own[0], own[-1]])
+        spec["headers"] = [dict(text=list(htext), text_convert=on["headers.text_convert"],
+                                text_hyphenation=on["headers.text_hyphenation"], text_color=rng.choice(own))]
+        for c in present:
+            d = dict(text=texts[c], text_convert=on[c + ".text_convert"], text_color=rng.choice([x] + own))
+            if c in ("footnote", "source"):
+                d["as_table"] = on[c + ".as_table"]
+            if c == "title":
+                d["text_hyphenation"] = on["title.text_hyphenation"]
+            spec[c] = d
+        spec["page"] = dict(nrow=rng.randint(9, 12), use_color=on["page.use_color"])
+        spec["options"] = {sw: v for sw, v in on.items() if sw.split(".")[0] in ("body", "headers", "page") + tuple(present)}
+        specs.append(spec)
+    return specs
 
 
 # ------------------------------------------------------------------ same-feature document sets
@@ -400,10 +543,13 @@ def gen_feature_set(seed, k, feature, n=2, nc=2):
     names = [f"c{j}" for j in range(nc)]
     names.insert(kpos, "grp")
     g0 = "G0"                                        # first group value, the same in every document
-    htext = [f"H{j}" for j in range(nc + 1)]
+    arng = sub_rng(seed, "c15feat-affect", k)          # texts the per-component options act on (see AFFECTED)
+    htext = [f"H{j} {arng.choice(AFFECTED)}" for j in range(nc + 1)]
+    cell_snip = [[arng.choice(LATEX if (r + j) % 2 == 0 else AFFECTED) for j in range(nc)] for r in range(8)]
     mode = rng.choice(["samepage", "first_row"])      # how page_by headings become spanning rows
     pb_header = rng.random() < 0.5
-    title, note, src = "Title", "note {^a} x_1", "src"
+    title, note, src = (f"Title {arng.choice(LATEX)}", f"note {{^a}} x_1 {arng.choice(LATEX)}",
+                        f"src {arng.choice(AFFECTED)}")
     note_table = rng.random() < 0.6
     src_table = rng.random() < 0.6
     # optional components are decided per set (all documents of the set have them, each with its own settings)
@@ -427,6 +573,7 @@ def gen_feature_set(seed, k, feature, n=2, nc=2):
             rows = []
             for r in range(nr):
                 row = [f"{tag}{r}_{j}" if (r + j) % 3 else f"v{r}_{j}" for j in range(nc)]   # some texts shared
+                row = [f"{t} {cell_snip[r % 8][j]}" for j, t in enumerate(row)]  # … and every cell has a snippet
                 row.insert(kpos, keys[r])
                 rows.append(row)
             return dict(cols=list(names), rows=rows)
@@ -439,7 +586,10 @@ def gen_feature_set(seed, k, feature, n=2, nc=2):
         if with_src:
             spec["source"] = _line(rng, side, pal, src, table=src_table)
         if with_hdr:
-            spec["page_header"] = _line(rng, side, pal, "hdr")
+            spec["page_header"] = _line(rng, side, pal, "hdr " + LATEX[k % len(LATEX)])
+        for ci, c in enumerate(("title", "source", "page_header")):   # text_convert: a side per component and document
+            if c in spec:
+                spec[c]["text_convert"] = bool((side + ci) % 2)
         if feature in ("pageby", "subline", "groupby"):
             nr = rng.randint(2, 3) if small else rng.randint(3, 4)
             spec["df"] = keyed_frame(nr, 2 if nr <= 3 else rng.randint(2, 3))
@@ -467,6 +617,7 @@ def gen_feature_set(seed, k, feature, n=2, nc=2):
             spec["body"] = b
             h = _styled(rng, side, hn, pal, "header")
             h["text"] = htext[:hn]
+            h["text_convert"] = bool((side + 1) % 2)
             spec["headers"] = [h]
         elif feature == "multi":
             spec["kind"] = "multi"
@@ -571,10 +722,10 @@ def gen_shared_set(seed, k, n=2, must=("headers",), never=(), p_share=0.35, smal
         sh["body"] = b
     for c in ("title", "page_header", "page_footer"):
         if c in share:
-            sh[c] = _line(rng, oside, shared_pal, {"title": "Title", "page_header": "hdr", "page_footer": "ftr"}[c])
+            sh[c] = _line(rng, oside, shared_pal, {"title": "Title \\mu", "page_header": "hdr \\pm", "page_footer": "ftr \\alpha"}[c])
     for c in ("footnote", "source"):
         if c in share:
-            sh[c] = _line(rng, oside, shared_pal, "note {^a} x_1" if c == "footnote" else "src", table=rng.random() < 0.6)
+            sh[c] = _line(rng, oside, shared_pal, "note {^a} x_1 \\beta" if c == "footnote" else "src \\geq", table=rng.random() < 0.6)
     orients = ["portrait", "landscape"]
     rng.shuffle(orients)
     rows_per_page = 1 if small else 2                 # small: the cost of a schedule family grows with the encode's length
@@ -589,6 +740,7 @@ def gen_shared_set(seed, k, n=2, must=("headers",), never=(), p_share=0.35, smal
         rows = []
         for r in range(nr):
             row = [f"{tag}{r}_{j}" if (r + j) % 3 else f"v{r}_{j}" for j in range(nc)]
+            row = [f"{t} {LATEX[(3 * r + j) % len(LATEX)]}" for j, t in enumerate(row)]   # texts conversion changes
             if feature != "plain" or pb:
                 row.insert(0, "G0" if r < (nr + 1) // ngroups else f"{tag}G1")
             rows.append(row)
@@ -626,9 +778,9 @@ def gen_shared_set(seed, k, n=2, must=("headers",), never=(), p_share=0.35, smal
             if c in share:
                 spec[c] = json.loads(json.dumps(sh[c]))
             elif c in ("footnote", "source"):
-                spec[c] = _line(rng, side, pal, "note {^a} x_1" if c == "footnote" else "src", table=rng.random() < 0.6)
+                spec[c] = _line(rng, side, pal, "note {^a} x_1 \\beta" if c == "footnote" else "src \\geq", table=rng.random() < 0.6)
             else:
-                spec[c] = _line(rng, side, pal, {"title": "Title", "page_header": "hdr", "page_footer": "ftr"}[c])
+                spec[c] = _line(rng, side, pal, {"title": "Title \\mu", "page_header": "hdr \\pm", "page_footer": "ftr \\alpha"}[c])
         # the private coloured components carry the document's own colours (own[0] sorts below the common colour in
         # the documents that have such a colour: the common colour's table position differs between the documents)
         c0 = private_coloured[0]
@@ -979,6 +1131,17 @@ def _baseline_worker(task):
     out = []
     identity = {}
     with tempfile.TemporaryDirectory(prefix="rtfv_c15_") as wd, contextlib.redirect_stdout(io.StringIO()):
+        # the process-wide cells of the package (sched.StateProbe): found while no document exists, after a warm-up
+        # encode of the set (whatever the library builds once and keeps — cached services, strategy objects — is alive)
+        wdw = os.path.join(wd, "warm")
+        os.makedirs(wdw, exist_ok=True)
+        for d in _build_all(specs, wdw):
+            try:
+                d.rtf_encode()
+            except Exception:  # noqa: BLE001
+                pass
+        d = None
+        probe = sched.StateProbe()
         objects = []
         docs = _build_all(specs, wd, objects)
         if objects:
@@ -994,7 +1157,11 @@ def _baseline_worker(task):
                 if mode not in obs:
                     q = sched.run_scheduled([d.rtf_encode], [[0, None]], mode=mode)
                     obs[mode] = [q["counts"][0], [[e[1], e[4]] for e in q["log"]]]
-            out.append(dict(result=res, same_untraced=(res[0] == "ok" and res[1] == plain), calls=r["counts"][0],
+            sw = sched.state_windows(d.rtf_encode, probe)
+            out.append(dict(state=dict(calls=sw["calls"], points=sw["points"], restored=sw["restored"],
+                                       kept=sw["kept"], cells=sw["cells"], holders=len(probe.holders),
+                                       instances=probe.n_instances),
+                            result=res, same_untraced=(res[0] == "ok" and res[1] == plain), calls=r["counts"][0],
                             log=r["log"], observers_agree=len({json.dumps(v) for v in obs.values()}) == 1,
                             observers={k: v[0] for k, v in obs.items()}))
     out.append(dict(wrappers={k: (v if isinstance(v, (bool, str)) else True) for k, v in sched._PATCHED.items()
@@ -1420,6 +1587,9 @@ def prepare_sets(res, tier):
     else:
         plan += [("triple", ["tsmall", "figure", "tsmall"])]
     nold = len(plan)
+    # the pair that differs in every per-component switch, all texts being ones the switches act on (gen_option_set)
+    plan += [("pair-options", ["options", "options"])]
+    nopt = len(plan)
     # same-feature sets (documents that use the same feature with different settings, see gen_feature_set)
     frng = sub_rng(res.seed, "c15featplan")
     plan += [(f"same-{f}", [f + "*", f + "*"]) for f in FEATURES]
@@ -1441,8 +1611,10 @@ def prepare_sets(res, tier):
     for k, (name, kinds) in enumerate(plan):
         if k < nold:
             specs = gen_docset(res.seed, k, kinds)
+        elif k < nopt:
+            specs = gen_option_set(res.seed, k - nold, n=len(kinds))
         elif k < nfeat:
-            specs = gen_feature_set(res.seed, k - nold, kinds[0].rstrip("*"), n=len(kinds),
+            specs = gen_feature_set(res.seed, k - nopt, kinds[0].rstrip("*"), n=len(kinds),
                                     nc=2 if tier == "thorough" else 1)
         else:
             specs = gen_shared_set(res.seed, k - nfeat, n=len(kinds), small=True, **shared_plan[k - nfeat][2])
@@ -1452,7 +1624,7 @@ def prepare_sets(res, tier):
         else:
             tasks += [("fresh", s) for s in specs]
         tasks.append(("traced", specs))
-    cell_specs = [[sp for name, _ in plan[nold:nfeat] for sp in sets[name]["specs"]]]
+    cell_specs = [[sp for name, _ in plan[nopt:nfeat] for sp in sets[name]["specs"]]]
     cell_specs += [sets[name]["specs"] for name, _ in plan[nfeat:]]
     ci = len(tasks)
     tasks.append(("cells", cell_specs))
@@ -1481,6 +1653,20 @@ def prepare_sets(res, tier):
         st["gp"] = [guided_points(t["log"], t["calls"]) for t in st["traced"]]
         st["gp_before"] = [guided_points(t["log"], t["calls"], (-1,)) for t in st["traced"]]
         st["gp_inside"] = [inside_points(t["log"], t["calls"]) for t in st["traced"]]
+        # call boundaries at which a process-wide cell of the package (an attribute of a module-level / cached /
+        # class-level object, a module global) holds a value different from its idle value, or next to a write that
+        # stays (sched.state_windows); usable only if the probe's run saw the same number of library calls
+        st["gp_state"], st["state_cells"] = [], []
+        for i, t in enumerate(st["traced"]):
+            sw = t.get("state") or {}
+            ok = sw.get("calls") == t["calls"]
+            if sw and not ok:
+                res.notes.append(f"{name}[{i}]: the state probe saw {sw.get('calls')} library calls, the scheduler "
+                                 f"{t['calls']}; its park points are not used")
+            st["gp_state"].append([k for k in sw.get("points", []) if 0 <= k <= t["calls"]] if ok else [])
+            st["state_cells"].append(dict(restored=sw.get("restored", []), kept=sw.get("kept", []),
+                                          points={c: len(v) for c, v in (sw.get("cells") or {}).items()},
+                                          holders=sw.get("holders"), instances=sw.get("instances")))
         _BASE[name] = dict(specs=st["specs"], solo=st["solo"])
     return plan, sets
 
@@ -1533,6 +1719,8 @@ def judge_run(res, case, st, ob, drv, n2t_unused=None):
 # (all of them: None) and how many with x held anywhere are run
 HELD_INSIDE = dict(quick={None: 500, "triple": None}, thorough={None: None})
 HELD_ANY = dict(quick=100, thorough=2000)
+# per document set: how many of the schedules "a document parked inside a window of a process-wide cell" are run
+STATE_WINDOW_CAP = dict(quick=240, thorough=None)
 
 
 def run_sched(res, tier, n2t):
@@ -1601,6 +1789,17 @@ def run_sched(res, tier, n2t):
             res.count(f"{name}:pages={n_pages}")
             if n_pages < 2:
                 res.notes.append(f"{name}[{i}] has one page only: nothing repeats in it")
+    for name, _ in plan:
+        specs = sets[name]["specs"]
+        if all("options" in sp for sp in specs):
+            for sw_ in OPTION_SWITCHES:
+                sides = [sp["options"].get(sw_) for sp in specs]
+                if None not in sides:
+                    res.count(f"{name}:switch:{sw_}:" + ("differs" if len(set(sides)) > 1 else "same"))
+        offs = sum(1 for sp in specs if '"text_convert": false' in json.dumps(sp).lower()
+                   or '"text_convert": [[' in json.dumps(sp))
+        latex = sum(1 for sp in specs if any(a in json.dumps(sp) for a in (json.dumps(x)[1:-1] for x in LATEX)))
+        res.count(f"{name}:documents-with-text_convert-off={offs},with-mapped-LaTeX-text={latex}")
     rng = sub_rng(res.seed, "c15sched")
     tasks = []
     fam_counts = {}
@@ -1640,6 +1839,32 @@ def run_sched(res, tier, n2t):
                     fams += [("single-spaced", f[1]) for f in mine[off::every]]
             fams += sampled(calls, gp, rng, 40, 2)
             fams += guided3(calls, gp, rng, 40)
+        if name == "pair-options" and tier == "quick":
+            # the documents sit on different sides of every per-component switch: each is parked at evenly spaced call
+            # boundaries (random phase) while the other one is encoded from start to finish, + sampled 2 / 3 preemptions
+            allsp = single_preemption(n, calls)
+            for x in range(n):
+                mine = [f for f in allsp if f[1][0][0] == x]
+                every = max(1, len(mine) // 200)
+                fams += [("single-spaced", f[1]) for f in mine[rng.randrange(every)::every]]
+            fams += sampled(calls, gp, rng, 40, 2)
+            fams += guided3(calls, gp, rng, 40)
+        # every document of every set: parked at the call boundaries inside the set … restore windows of the
+        # process-wide cells its encode writes (and on both sides of the writes that stay) while the other document(s)
+        # are encoded from start to finish (three documents: in both orders)
+        have = {json.dumps(f[1]) for f in fams}
+        sw = []
+        for x in range(n):
+            others = [t for t in range(n) if t != x]
+            for k in st["gp_state"][x]:
+                for order in ((others, others[::-1]) if n == 3 else (others,)):
+                    segs = [[x, k]] + [[t, None] for t in order] + [[x, None]]
+                    if json.dumps(segs) not in have:
+                        sw.append(("state-window", segs))
+        cap = STATE_WINDOW_CAP[tier]
+        if cap is not None and len(sw) > cap:
+            sw = rng.sample(sw, cap)
+        fams += sw
         if n == 3:
             # single preemption of each of the three threads at the switch points next to its shared accesses
             fams += [f for f in single_preemption(n, calls) if f[1][0][1] in set(gp[f[1][0][0]])]
@@ -1709,6 +1934,12 @@ def run_sched(res, tier, n2t):
     res.extra["shared_events_per_thread"] = {name: [len(t["log"]) for t in sets[name]["traced"]] for name, _ in plan}
     res.extra["guided_points_per_thread"] = {name: [len(g) for g in sets[name]["gp"]] for name, _ in plan}
     res.extra["before_access_points_per_thread"] = {name: [len(g) for g in sets[name]["gp_before"]] for name, _ in plan}
+    res.extra["state_window_points_per_thread"] = {name: [len(g) for g in sets[name]["gp_state"]] for name, _ in plan}
+    res.extra["process_wide_cells_written"] = {name: sets[name]["state_cells"] for name, _ in plan}
+    for name, _ in plan:
+        for i, sc in enumerate(sets[name]["state_cells"]):
+            res.count(f"state-cells:{name}[{i}]:" + ("none-written" if not (sc["restored"] or sc["kept"]) else
+                                                      f"restored={len(sc['restored'])},kept={len(sc['kept'])}"))
     res.extra["inside_access_points_per_thread"] = {name: [len(g) for g in sets[name]["gp_inside"]] for name, _ in plan}
     res.extra["schedules_by_family"] = fam_counts
     res.extra["schedules_total"] = len(tasks)
